@@ -280,6 +280,9 @@ pub fn search_serial(rng: &mut Rng, rounds: usize) -> Option<Cex> {
         Frame::from(Message::ReportState(Address(3), State::PageShowInProgress)).to_bytes_with_newline(),
         Frame::from(Message::AckOperation(Address(0xFFFF), Operation::FinishReset)).to_bytes_with_newline(),
         b":0000030AF3\r\n".to_vec(), // unknown frame
+        // the longest lines the protocol allows (255 and 254 data bytes): a cap on the line length that is a few bytes short shows only here
+        Frame::new(Address(3), MsgType(0x0A), Data::try_new(vec![0x5Au8; 255]).unwrap()).to_bytes_with_newline(),
+        Frame::new(Address(0xFFFF), MsgType(0xFF), Data::try_new((0..254u32).map(|i| (i * 7) as u8).collect::<Vec<u8>>()).unwrap()).to_bytes_with_newline(),
     ];
     let bad_replies: Vec<Vec<u8>> = vec![b"".to_vec(), b"\r\n".to_vec(), b":0100030407\r\n".to_vec(), b":01000304078C\r\n".to_vec(), b"garbage\n".to_vec(), b":01000304078".to_vec()];
     for _ in 0..rounds {
